@@ -175,7 +175,9 @@ def add_guided(sc, prop, tier):
 PROP_INV = {"C04": ["Inv_C04", "Inv_C07"], "C05": ["Inv_C05"], "C15": ["Inv_C15"], "C08": ["Inv_C04", "Inv_C07"], "C13": ["Inv_C04", "Inv_C07"]}
 # C08 (clean-up never harms live data / a put that is committing) and C13 (an abandoned transaction does not disturb a
 # concurrent one on the same key) are judged on their own program classes with the C04/C07 conjuncts of TraceConc
-PROP_TAGS = {"C04": ["C04:", "C07:"], "C05": ["C05:"], "C15": ["C15:"], "C08": ["C04:", "C07:"], "C13": ["C04:", "C07:", "C05:"]}
+# OPFAIL: a put / remove / checkpoint / clean-up call returned an error although nothing was injected
+PROP_TAGS = {"C04": ["C04:", "C07:", "OPFAIL:"], "C05": ["C05:", "OPFAIL:"], "C15": ["C15:"], "C08": ["C04:", "C07:", "OPFAIL:"],
+             "C13": ["C04:", "C07:", "C05:", "C06:", "OPFAIL:"]}
 
 
 def validate_conc(traces):
